@@ -68,8 +68,24 @@ theorem source_recovers (h0 : Bool) (s : State) (hr : Reach (init h0) s) (hm : s
     ∃ v, recover s.pf s.wal = some v ∧ Shows s.hasIndex v s.wal.txs := by
   have hi := (reach_inv hr).src
   simp only [SrcInv, hm] at hi
-  obtain ⟨a, b, c, d, e, f, g1, g2, g3⟩ := hi
-  exact good_of s.hasIndex s.pf s.wal (by omega) e (Or.inr c) d (by omega) b a f
+  obtain ⟨a, b, c, d, e, e', f, g1, g2, g3⟩ := hi
+  exact good_of s.hasIndex s.pf s.wal (by omega) e (Or.inr c) d (by omega) b a e' f
+
+private theorem okR : (runTrace (init false)
+    ([.cW, .cI, .kP, .kS, .kM, .bStart, .bPf, .close, .reopen, .cW, .cI, .bWal])).isSome = true := by decide
+def stR : State := (runTrace (init false)
+    ([.cW, .cI, .kP, .kS, .kM, .bStart, .bPf, .close, .reopen, .cW, .cI, .bWal])).get okR
+
+/-- **Close-time WAL rewrite during a backup is harmless** (it is not a trigger): `Db::close` between —
+    or around — the two copies replaces the log by a snapshot transaction only when every run is merged,
+    and then the manifest, the checkpoint and the page file are what they were; `C29_partial` holds with
+    any number of `close`/`reopen` steps inside the backup window.  This instance: page file copied,
+    handle closed (log rewritten), handle reopened, one more commit, log copied. -/
+theorem close_rewrite_between_copies_is_consistent :
+    ∃ s, Reach (init false) s ∧ noTrigger s = true ∧
+      s.bk = .done 1 2 ⟨1, 1, 1, 0⟩ ⟨2, 1, 1, 1⟩ ∧
+      recover ⟨1, 1, 1, 0⟩ ⟨2, 1, 1, 1⟩ = some ⟨2, 2, 1, 1, 2, 0⟩ :=
+  ⟨stR, reach_of_runTrace _ .refl (Option.some_get okR).symm, by decide, by decide, by decide⟩
 
 def tx : List Label := [.cW, .cI]
 def compaction : List Label := [.kP, .kS, .kM]
@@ -85,14 +101,14 @@ def stC : State := (runTrace (init false) (tx ++ compaction ++ [.bStart, .bPf] +
 /-- **Counterexample (compaction between the copies)**: the copied WAL's manifest lists a segment
     whose pages are not in the copied page file — the restored database does not open. -/
 theorem C29_counterexample_compaction :
-    Reach (init false) stK ∧ stK.bk = .done 2 2 ⟨2, 0, 0, 0⟩ ⟨2, 2, 1⟩ ∧ recover ⟨2, 0, 0, 0⟩ ⟨2, 2, 1⟩ = none :=
+    Reach (init false) stK ∧ stK.bk = .done 2 2 ⟨2, 0, 0, 0⟩ ⟨2, 2, 1, 0⟩ ∧ recover ⟨2, 0, 0, 0⟩ ⟨2, 2, 1, 0⟩ = none :=
   ⟨reach_of_runTrace _ .refl (Option.some_get okK).symm, by decide, by decide⟩
 
 /-- **Counterexample (index not in the log)**: a commit between the copies is replayed from the copied
     WAL, but its index entry exists only in the newer page file — the restored index misses the node. -/
 theorem C29_counterexample_index :
-    Reach (init true) stI ∧ stI.bk = .done 1 2 ⟨1, 0, 0, 1⟩ ⟨2, 0, 0⟩ ∧
-    recover ⟨1, 0, 0, 1⟩ ⟨2, 0, 0⟩ = some ⟨2, 2, 0, 0, 2, 1⟩ ∧
+    Reach (init true) stI ∧ stI.bk = .done 1 2 ⟨1, 0, 0, 1⟩ ⟨2, 0, 0, 0⟩ ∧
+    recover ⟨1, 0, 0, 1⟩ ⟨2, 0, 0, 0⟩ = some ⟨2, 2, 0, 0, 2, 1⟩ ∧
     ¬ ∃ c, Shows true ⟨2, 2, 0, 0, 2, 1⟩ c := by
   refine ⟨reach_of_runTrace _ .refl (Option.some_get okI).symm, by decide, by decide, ?_⟩
   rintro ⟨c, h1, _, _, h4⟩
@@ -106,9 +122,9 @@ theorem C29_full_is_false : ¬ C29_full := by
 
 /-! non-vacuity: two commits between the copies, after an earlier compaction, no index: `C29_partial`
     applies and the restored pair shows all three transactions (later log replayed on earlier page file) -/
-example : Reach (init false) stC ∧ noTrigger stC = true ∧ stC.bk = .done 1 3 ⟨1, 1, 1, 0⟩ ⟨3, 1, 1⟩ ∧
-    recover ⟨1, 1, 1, 0⟩ ⟨3, 1, 1⟩ = some ⟨3, 3, 1, 1, 3, 0⟩ ∧
-    recover ⟨1, 1, 1, 0⟩ ⟨3, 1, 1⟩ = recover ⟨3, 1, 1, 0⟩ ⟨3, 1, 1⟩ :=
+example : Reach (init false) stC ∧ noTrigger stC = true ∧ stC.bk = .done 1 3 ⟨1, 1, 1, 0⟩ ⟨3, 1, 1, 0⟩ ∧
+    recover ⟨1, 1, 1, 0⟩ ⟨3, 1, 1, 0⟩ = some ⟨3, 3, 1, 1, 3, 0⟩ ∧
+    recover ⟨1, 1, 1, 0⟩ ⟨3, 1, 1, 0⟩ = recover ⟨3, 1, 1, 0⟩ ⟨3, 1, 1, 0⟩ :=
   ⟨reach_of_runTrace _ .refl (Option.some_get okC).symm, by decide, by decide, by decide, by decide⟩
 
 end Nervus.Props.C29
